@@ -6,6 +6,7 @@ import math
 from fractions import Fraction
 
 import indic
+import plat
 from indic import dirs_w, set_f, close
 from common import wf, wlist, bits2f
 from plat import mk_problem, mk_sol, call, sol_q, sol_f
@@ -51,8 +52,13 @@ def run(ctx, drv):
 
         rng_cap, rng_div = rng.randrange(2, 5), rng.randrange(2, 4)
 
-        def evaluate(dr, P, R):
-            p = mk_problem(nobjs, dr, constrained=True)
+        def evaluate(dr, P, R, reuse=None):
+            if reuse is None:
+                p = mk_problem(nobjs, dr, constrained=True)
+            else:
+                # the history "compare -> negate objective k and declare it maximised on the SAME problem object -> compare again"
+                p = reuse
+                plat.declare_directions(p, dr, rng.randrange(8))
             sols = [mk_sol(p, q, cv) for q, cv in zip(P, cvs)]
             ref = [mk_sol(p, q, 0.0) for q in R]
             out = {}
@@ -91,11 +97,15 @@ def run(ctx, drv):
                 out["hv_bounds"] = call(lambda: I.Hypervolume(minimum=mn, maximum=mx).calculate(fresh(sols)))
             return out, sols, ref
         base, bsols, bref = evaluate(dirs, pts, rpts)
+        base_problem = bsols[0].problem if bsols else None
         nd_count = len(base["archive"])
         for S in subsets:
             fd, fp = flipped(dirs, set(S), pts)
             _, fr = flipped(dirs, set(S), rpts)
-            other, fsols, fref = evaluate(fd, fp, fr)
+            reuse_now = base_problem is not None and rng.random() < 0.5
+            other, fsols, fref = evaluate(fd, fp, fr, reuse=base_problem if reuse_now else None)
+            if reuse_now:
+                ctx.count("flips_on_the_same_problem_object")
             inp = {"maximise": list(dirs), "flipped_objectives": list(S), "set": [[p, cv] for p, cv in zip(pts, cvs)], "reference": rpts, "epsilons": eps}
             for key in ("pareto", "eps", "same_box", "archive", "eps_archive", "ranks", "grid_archive"):
                 if base[key] != other[key]:
@@ -123,6 +133,36 @@ def run(ctx, drv):
                             lambda g, exp=exp, inp=inp, tag=tag: None if g == exp else ctx.disagree(f"paretoCompare on the {tag} problem vs implementation on the original", inp, exp, g))
             ctx.case((tuple(map(tuple, pts)), S), 0 < nd_count < len(pts),
                      dict(inp, ranks=base["ranks"], hypervolume=base.get("hv_bounds")) if len(ctx.samples) < 2 and nobjs >= 2 else None)
+    # ---- bounded grid archives driven well past their capacity with mutually non-dominated generic points: truncation happens
+    # while several cells tie for the highest density; the members kept must not depend on the direction encoding
+    for t in range(200 if ctx.quick() else 4000):
+        nobjs = rng.choice([2, 2, 3])
+        dirs = tuple(rng.random() < 0.3 for _ in range(nobjs))
+        cap, div = rng.randrange(3, 7), rng.randrange(2, 5)
+        pts = []
+        for _ in range(rng.randrange(cap + 2, cap + 14)):
+            w = [rng.random() + 0.01 for _ in range(nobjs)]
+            tot = sum(w)
+            # on a linear front in "minimise" coordinates, then expressed in the declared directions
+            pts.append([(-x / tot if d else x / tot) for x, d in zip(w, dirs)])
+
+        def members(dr, P):
+            p = mk_problem(nobjs, dr, constrained=False)
+            sols = [mk_sol(p, q, 0.0) for q in P]
+            ga = C.AdaptiveGridArchive(cap, nobjs, div)
+            for s_ in sols:
+                call(ga.add, s_)
+            return sorted(sols.index(m) for m in ga)
+        base_m = members(dirs, pts)
+        for k in range(nobjs):
+            fd, fp = flipped(dirs, {k}, pts)
+            got = members(fd, fp)
+            if got != base_m:
+                ctx.fail("grid_archive-changes-under-flip", {"maximise": list(dirs), "flipped_objectives": [k], "capacity": cap, "divisions": div, "set": [[q, 0.0] for q in pts]},
+                         got, base_m, "core.AdaptiveGridArchive")
+                break
+        ctx.case(("gridflip", tuple(map(tuple, pts)), cap, div), len(pts) > cap)
+    ctx.count("grid_archive_overflow_histories", 200 if ctx.quick() else 4000)
     if drv.ok:
         out = drv.batch(reqs)
         for g, fn in zip(out, post):
